@@ -137,7 +137,15 @@ impl Worker {
         if !self.ctxs.contains_key(&bits) {
             let o = fixed_opts(&self.layout_path, bits, self.scratch.path());
             let cfg = Cfg::new(&o);
-            let ctx = Ctx::new(&cfg).expect("context");
+            // every other context with old-style reph on is created with the option off and re-configured (the option
+            // has to follow update_engine like every other one)
+            static N: std::sync::atomic::AtomicU64 = std::sync::atomic::AtomicU64::new(0);
+            let ctx = if bits & 8 != 0 && N.fetch_add(1, std::sync::atomic::Ordering::Relaxed) % 2 == 1 {
+                let cfg0 = Cfg::new(&fixed_opts(&self.layout_path, bits & !8, self.scratch.path()));
+                let mut c = Ctx::new(&cfg0).expect("context");
+                let _ = c.update(&cfg);
+                c
+            } else { Ctx::new(&cfg).expect("context") };
             self.ctxs.insert(bits, (cfg, ctx));
         }
         &mut self.ctxs.get_mut(&bits).unwrap().1
